@@ -8,12 +8,13 @@
 # confirmed when it was stored) and the lines go to seeded/MATRIX.txt.
 # VERIF_WALL_CAP_S (default here: 600) bounds a check that a change makes hang; it is then listed as broken.
 # The scratch worktree and its build output are removed at the end.
-cd /verif
+V="$(cd "$(dirname "$0")/.." && pwd)"   # works from a snapshot of /verif as well (vp run)
+cd "$V"
 PAT="${1:-}"
-OUT=/verif/mutants/MATRIX.txt
-[ -n "${SEEDED:-}" ] && OUT=/verif/seeded/MATRIX.txt
+OUT=$V/mutants/MATRIX.txt
+[ -n "${SEEDED:-}" ] && OUT=$V/seeded/MATRIX.txt
 export VERIF_WALL_CAP_S="${VERIF_WALL_CAP_S:-600}"
-SCR=/tmp/cbv-selftest
+SCR=/tmp/cbv-selftest-$(echo -n "$V" | md5sum | cut -c1-6)
 [ -z "$PAT" ] && : > $OUT
 ALL="C01 C02 C03 C04 C05 C06 C07 C08 C09 C10 C11 C12 C13 C14 C15 C16 C17 C18 C19"
 git -C /repo worktree remove --force $SCR 2>/dev/null
@@ -22,21 +23,21 @@ export VERIF_REPO=$SCR
 TAG="-$(echo -n "$SCR" | md5sum | cut -c1-8)"
 cleanup() {
   git -C /repo worktree remove --force $SCR 2>/dev/null
-  rm -rf /verif/target/hooks$TAG /verif/target/plain$TAG /verif/harness$TAG /verif/target/build$TAG.log* /verif/target/selftest
+  rm -rf $V/target/hooks$TAG $V/target/plain$TAG $V/harness$TAG $V/target/build$TAG.log* $V/target/selftest
 }
 trap cleanup EXIT
 if [ -n "${SEEDED:-}" ]; then LIST=$(ls seeded/${PAT}*/patch.diff); else LIST=$(ls mutants/${PAT}*.patch); fi
 for P in $LIST; do
   if [ -n "${SEEDED:-}" ]; then name=$(basename $(dirname $P)); else name=$(basename $P .patch); fi
-  ( cd $SCR && git checkout -q -- . && git apply /verif/$P ) || { echo "$name cannot-apply" | tee -a $OUT; continue; }
-  if [ -n "${SEEDED:-}" ]; then t=confirmed-earlier; elif ( cd $SCR && CARGO_TARGET_DIR=/verif/target/selftest cargo test --workspace --no-fail-fast --offline >/verif/target/selftest.log 2>&1 ); then t=pass; else t=FAIL; fi
+  ( cd $SCR && git checkout -q -- . && git apply $V/$P ) || { echo "$name cannot-apply" | tee -a $OUT; continue; }
+  if [ -n "${SEEDED:-}" ]; then t=confirmed-earlier; elif ( cd $SCR && CARGO_TARGET_DIR=$V/target/selftest cargo test --workspace --no-fail-fast --offline >$V/target/selftest.log 2>&1 ); then t=pass; else t=FAIL; fi
   fired=""; broken=""
   for c in ${CHECKS:-$ALL}; do
-    VERIF_EVIDENCE_DIR=/tmp/cbv-selftest-evidence ./check $c --tier quick >/verif/target/selftest-check.log 2>&1; rc=$?
+    VERIF_EVIDENCE_DIR=$SCR-evidence ./check $c --tier quick >$V/target/selftest-check.log 2>&1; rc=$?
     [ $rc -eq 1 ] && fired="$fired $c"
     [ $rc -ge 2 ] && broken="$broken $c"
   done
   ( cd $SCR && git checkout -q -- . )
   echo "$name tests=$t fired=[${fired# }] broken=[${broken# }]" | tee -a $OUT
 done
-rm -rf /tmp/cbv-selftest-evidence /verif/replays-selftest
+rm -rf $SCR-evidence
